@@ -16,7 +16,9 @@ EXPLANATION = (
     "every path from the start of a zone iteration to the NS lookup or to append_ips_from_lookup crosses "
     "recursion_exceeded(ns_recursion_limit, depth) == Ok after depth += 1; resolve_cnames checks recursion_exceeded(recursion_limit) "
     "and the MAX_CNAME_LOOKUPS counter before recursing into resolve; recursion_exceeded is Ok only under depth < limit; the stub "
-    "resolver's alias restart is guarded by DepthTracker::is_exhausted.")
+    "resolver's alias restart is guarded by DepthTracker::is_exhausted; (R2) every retry cycle of PoolState::try_send that is not an inner "
+    "finite drain or an await crosses the `now >= deadline` test and the deadline is assigned once; (R3) atomic budget counters in the "
+    "recursor are only ever fetch_add-ed / loaded (the alias budget counts the whole tree, not the stack).")
 NOT_DECIDED = ("Query-count bounds as numbers; cache contents over histories; owner filtering of the address answers consumed by "
                "append_ips_from_lookup (DESIGN F7: candidate, no demonstration built, not required here).")
 ASSUMPTIONS = ["FULL feature configuration (recursor + dnssec-ring)", "async_recursion boxing does not change the call structure"]
